@@ -297,6 +297,29 @@ def m15():
 def m16():
     manual_codec(ENC_LE.replace("to_le_bytes", "to_ne_bytes"), DEC_LE.replace("from_le_bytes", "from_ne_bytes"))
 
+@mutant("own17-wrapping-codec-with-version-byte", True, "new API surface: Wrapping<F> gains Encode/Decode/EncodeLike, written with a leading 'format version' byte; Wrapping round trips pass, nothing that existed before changes, but the SCALE form of a Wrapping<F> is no longer the plain bits of the value")
+def m17():
+    edit("src/wrapping.rs", """impl<F: Fixed> Wrapping<F> {""", """impl<F: codec::Encode> codec::Encode for Wrapping<F> {
+    fn size_hint(&self) -> usize {
+        1 + self.0.size_hint()
+    }
+    fn encode_to<W: codec::Output + ?Sized>(&self, dest: &mut W) {
+        dest.push_byte(0);
+        self.0.encode_to(dest);
+    }
+}
+impl<F: codec::Encode> codec::EncodeLike for Wrapping<F> {}
+impl<F: codec::Decode> codec::Decode for Wrapping<F> {
+    fn decode<I: codec::Input>(input: &mut I) -> Result<Self, codec::Error> {
+        if input.read_byte()? != 0 {
+            return Err("unknown Wrapping format version".into());
+        }
+        F::decode(input).map(Wrapping)
+    }
+}
+
+impl<F: Fixed> Wrapping<F> {""")
+
 # ---- refactorings that must NOT raise an alarm
 @mutant("ok01-fields-reordered", False, "n/a: phantom field first; encoding unchanged")
 def n01():
